@@ -61,6 +61,9 @@ def gen(rng, tier, n):
         n = rng.randint(4, 14)
         cases.append(["kind mem", "plan - -", "cancelresume %d %d %d" % (rng.choice([0, 2, 3, 5, 5, 8]), n, rng.randint(1, n))])
     for _ in range(4 if tier == "quick" else 40):
+        n = rng.randint(2, 9)
+        cases.append(["kind mem", "plan - -", "panicresume %s %d %d" % (rng.choice(["mem", "sqlite"]), n, rng.randint(1, n))])
+    for _ in range(4 if tier == "quick" else 40):
         cases.append(["kind mem", "plan - -", "livechain %s %d %d" % (rng.choice(["mem", "mem", "sqlite"]), rng.randint(2, 9), rng.randint(0, 1))])
     return cases
 
@@ -76,6 +79,8 @@ def nontrivial(prop, lines, impl):
         return bool(impl) and impl[0] == "racepub ok"
     if any(l.startswith("cancelresume") for l in lines):
         return bool(impl) and impl[0] == "cancelresume ok"
+    if any(l.startswith("panicresume") for l in lines):
+        return bool(impl) and impl[0] == "panicresume ok"
     if any(l.startswith("livechain") for l in lines):
         return bool(impl) and impl[0] == "livechain ok"
     return bool(impl) and any(l.startswith("id ") and "delivered=-" not in l for l in impl) and any(l == "restart" for l in lines[:-3])
